@@ -56,6 +56,8 @@ def make_file(rng, d, ftype, N, hkind, comp, k):
         left = N
         cpd = int(rng.choice([3, 875, 1701]))
         while left > 0 or not recs:
+            if k % 4 == 2:
+                cpd = int(rng.choice([3, 875, 1701, 1]))  # the cell grid is per header, not per file
             recs.append(c15.header_record(cpd, int(rng.integers(1, 4048)), [int(x) for x in rng.integers(0, cpd, 3)]))
             n = min(left, int(rng.integers(0, 60)))
             if n:
@@ -151,6 +153,8 @@ def check(run):
     try:
         nfiles = 3 if run.quick else 40
         k = 0
+        held = []
+        posfiles = []
         plan = []
         for rep in range(nfiles):
             for j, ftype in enumerate(('rvint', 'pack9', 'packedpid', 'pid')):
@@ -163,6 +167,8 @@ def check(run):
                 hkind = ['snapshot', 'lightcone'][k % 2]
                 comp = [None, 'zlib', 'blsc'][(k // 2) % 3]
                 fn, data, hdr = make_file(rng, d, ftype, N, hkind, comp, k)
+                if ftype in ('rvint', 'pack9'):
+                    posfiles.append((fn, ftype, data, hdr))
                 cols = ['pos', 'vel'] if ftype in ('rvint', 'pack9') else PIDCOLS
                 base = {}
                 reqs = [None] + list(subsets(cols))
@@ -187,6 +193,20 @@ def check(run):
                         run.nt((ftype, min(N, 2), hkind, comp, tuple(eff), desc['dtype']))
                         if check_table(run, t, ftype, data, hdr, eff, dtype, desc):
                             continue
+                        # tables handed out earlier stay what they were (no buffer shared between calls)
+                        for (t_old, snap, d_old) in held:
+                            for c in t_old.colnames:
+                                if not np.array_equal(np.asarray(t_old[c]), snap[c], equal_nan=(snap[c].dtype.kind == 'f')):
+                                    run.violation('read-asdf-earlier-table-changed', dict(column=c, earlier=d_old, after_reading=desc))
+                                    held.clear()
+                                    break
+                        run.count('earlier_tables_rechecked', len(held))
+                        if len(t):
+                            held.append((t, {c: np.array(t[c]) for c in t.colnames}, dict(desc)))
+                            if len(held) > 8:
+                                # keep the tables with the most rows (a later, smaller read is what would disturb them) and the latest ones
+                                held.sort(key=lambda h: len(h[0]))
+                                held.pop(0)
                         # differential: each column identical whatever else is requested
                         for c in t.colnames:
                             key = (c, desc['dtype'])
@@ -253,6 +273,42 @@ def check(run):
                     with contextlib.redirect_stdout(io.StringIO()), contextlib.redirect_stderr(io.StringIO()):
                         t = RA.read_asdf(fn, load=['pid', 'density'], verbose=True)
                     check_table(run, t, ftype, data, hdr, ['pid', 'density'], np.float32, dict(file_type=ftype, N=N, verbose=True))
+        # the position files once more, largest first, keeping every table: a later (smaller) read must leave the earlier tables alone
+        posfiles.sort(key=lambda r: -len(r[2]))
+        kept = []
+        for fn_, ftype_, data_, hdr_ in posfiles:
+            for dtype in (np.float32, np.float64):
+                run.ev()
+                t = RA.read_asdf(fn_, load=['pos', 'vel'], dtype=dtype, verbose=False)
+                desc = dict(file_type=ftype_, N=len(t), dtype=np.dtype(dtype).str, phase='largest first, all tables kept')
+                check_table(run, t, ftype_, data_, hdr_, ['pos', 'vel'], dtype, desc)
+                for (t_old, snap, d_old) in kept:
+                    if any(not np.array_equal(np.asarray(t_old[c]), snap[c], equal_nan=True) for c in t_old.colnames):
+                        run.violation('read-asdf-earlier-table-changed', dict(earlier=d_old, after_reading=desc))
+                        kept = []
+                        break
+                run.count('earlier_tables_rechecked', len(kept))
+                kept.append((t, {c: np.array(t[c]) for c in t.colnames}, desc))
+        run.nt(('tables-kept', len(posfiles)))
+        # a pack9 file whose first cell alone holds more than 2^21 particles (no header for millions of records), then ordinary cells
+        nbig = 2**21 + 70001
+        f = rng.integers(0, 4096, (nbig, 6))
+        f[:, 0] = rng.integers(0, 0xFF0, nbig)
+        f2 = rng.integers(0, 4096, (50, 6))
+        f2[:, 0] = rng.integers(0, 0xFF0, 50)
+        bigdata = np.concatenate([c15.header_record(875, 1234, [1, 2, 3]), c15.pack_fields(f), c15.header_record(875, 999, [5, 6, 7]), c15.pack_fields(f2)])
+        bighdr = header('snapshot', 2000.0, 1000.0, 6912)
+        bigfn = os.path.join(d, 'pack9_big.asdf')
+        write_asdf(bigfn, dict(header=bighdr, data=dict(pack9=bigdata)), None)
+        for load, dtype in ((['pos', 'vel'], np.float32), (['vel'], np.float64)):
+            run.ev()
+            desc = dict(file_type='pack9', N=nbig + 50, layout='one cell of 2^21+70001 particles', load=load, dtype=np.dtype(dtype).str)
+            run.progress(desc)
+            t = RA.read_asdf(bigfn, load=load, dtype=dtype, verbose=False)
+            run.nt(('pack9-big', tuple(load), desc['dtype']))
+            check_table(run, t, 'pack9', bigdata, bighdr, load, dtype, desc)
+        del f, bigdata
+        os.unlink(bigfn)
         # files with two known raw columns / none
         two = os.path.join(d, 'two.asdf')
         rv = rng.integers(0, 1 << 31, (5, 3)).astype(np.int32)
